@@ -7,6 +7,7 @@ import (
 	"os"
 	"path/filepath"
 	"runtime"
+	"runtime/pprof"
 	"strings"
 	"time"
 )
@@ -75,11 +76,12 @@ func main() {
 	maxSteps := flag.Int64("max-steps", 5000000, "SSA instruction bound per path")
 	timeout := flag.Int("timeout", 600, "seconds per harness")
 	models := flag.Int("models", 20, "completed paths sampled with a model (native replay)")
-	solver := flag.String("solver", "z3 -in -t:20000", "solver command")
+	solver := flag.String("solver", "lib timeout=20000", "solver: `lib [opt=val ...]` = in-process libz3, or an external command such as `z3 -in -t:20000`")
 	known := flag.String("known", "/verif/known_findings.json", "known findings file")
 	seed := flag.Int64("seed", 0, "seed")
 	verbose := flag.Bool("v", false, "verbose")
 	params := flag.String("params", "", "harness parameters k=v,k=v (vpParam)")
+	cpuprof := flag.String("cpuprofile", "", "write CPU profile")
 	replayModel := flag.String("replay-model", "", "JSON file with {inputs:[...]}: run the harness concretely on this model")
 	flag.Parse()
 
@@ -131,7 +133,16 @@ func main() {
 		E.cfg.Workers = 1
 	}
 	loadS := time.Since(t0).Seconds()
-	ro := RunOutput{Repo: *repo, LoadS: loadS, Config: E.cfg, Solver: *solver}
+	if *cpuprof != "" {
+		pf, _ := os.Create(*cpuprof)
+		pprof.StartCPUProfile(pf)
+		defer pprof.StopCPUProfile()
+	}
+	solverDesc := *solver
+	if strings.HasPrefix(*solver, "lib") {
+		solverDesc = "libz3 " + libZ3Version() + " in-process via Z3_eval_smtlib2_string (SMT-LIB2 text, push/pop per path), options: " + strings.TrimSpace(strings.TrimPrefix(*solver, "lib"))
+	}
+	ro := RunOutput{Repo: *repo, LoadS: loadS, Config: E.cfg, Solver: solverDesc}
 	for _, h := range strings.Split(*run, ",") {
 		h = strings.TrimSpace(h)
 		if h == "" {
